@@ -469,14 +469,29 @@ class SchedQueue:
     def get_nowait(self):
         return self.get(block=False)
 
+    # full / empty / qsize read shared state: a decision taken on their answer can be overtaken by another thread, so each of them
+    # is a scheduling point (check-then-act on an inbox, seeded change C12-r9-1)
+    def _peek(self, what):
+        if self._managed():
+            self.sched.yield_point(what)
+
     def full(self):
-        return bool(self.maxsize) and len(self._items) >= self.maxsize
+        self._peek("full")
+        r = bool(self.maxsize) and len(self._items) >= self.maxsize
+        self._peek("full-answered")
+        return r
 
     def empty(self):
-        return not self._items
+        self._peek("empty")
+        r = not self._items
+        self._peek("empty-answered")
+        return r
 
     def qsize(self):
-        return len(self._items)
+        self._peek("qsize")
+        r = len(self._items)
+        self._peek("qsize-answered")
+        return r
 
 
 class SchedEvent:
